@@ -51,6 +51,11 @@ def plan(tier, seed):
 
 
 def run_shard(spec, res):
+    if spec["tier"] == "thorough" and spec["shard"] == 1:
+        # the repository's own test-suite re-run with the universal monitor installed (DESIGN §4): every internal call is judged
+        from vk.mon import suite as _suite
+
+        _suite.feed(res, PROPERTY, _suite.run_suite(("sim",)), "M-sim:judged")
     b = BOUNDS[spec["tier"]]
     for key in spec["cases"]:
         try:
@@ -62,6 +67,11 @@ def run_shard(spec, res):
 
 
 def replay(witness, res):
+    if witness.get("suite"):
+        from vk.mon import suite as _suite
+
+        _suite.replay_suite(res, PROPERTY, ("sim",), "M-sim:judged", witness)
+        return
     b = dict(BOUNDS["thorough"])
     if witness.get("example"):
         run_examples(b, res, only=witness["example"])
